@@ -48,7 +48,7 @@ const (
 )
 
 // ssaBodyDeps: dependency packages whose function bodies are built (callee summaries).
-var ssaBodyDeps = map[string]bool{pkgIntstr: true}
+var ssaBodyDeps = map[string]bool{pkgIntstr: true, "k8s.io/client-go/util/flowcontrol": true}
 
 // fullSSABodies (thorough tier): build function bodies of every package so that the VTA call
 // graph can follow calls that leave the repository and come back (sort.Sort → Less, handler
@@ -144,6 +144,9 @@ func Load(dir, tags string, extraEnv ...string) (*Prog, error) {
 	}
 	sort.Slice(p.Repo, func(i, j int) bool { return p.Repo[i].PkgPath < p.Repo[j].PkgPath })
 
+	if os.Getenv("EDS_FULL_SSA") != "" {
+		fullSSABodies = true
+	}
 	t1 := time.Now()
 	prog, _ := ssautil.AllPackages(initial, ssa.BuilderMode(0))
 	// Function bodies are built for the repository's packages and for the few dependency
